@@ -40,8 +40,8 @@ PROPS = {
         'assumptions': [VERUS, USIZE, WRITER_MODEL, FMT, 'byte-string literal b"0\\r\\n\\r\\n" denotes its bytes (N14)'],
     },
     'C04': {
-        'modules': M_BODYW,
-        'explanation': 'Sized branch of BodyWriter::write verified against min(input, space, remaining) copy-through with exact countdown; consume_direct_write accounting at both layers; Call<WithBody>::write refuses overshoot and writes after the end with *final == *old; finished flag <=> remaining == 0 after a write.',
+        'modules': M_BODYW + ['lemmas'],
+        'explanation': 'Sized branch of BodyWriter::write verified against min(input, space, remaining) copy-through with exact countdown; consume_direct_write accounting at both layers; Call<WithBody>::write refuses overshoot and writes after the end with *final == *old; finished flag <=> remaining == 0 after a write; lemmas::lemma_sized_history: over ANY list of accepted writes the wire bytes equal the consumed bytes, the total never exceeds N and remaining == N - total (induction over the list).',
         'assumptions': [VERUS, USIZE, WRITER_MODEL],
     },
     'C05': {
@@ -63,8 +63,8 @@ PROPS = {
         'bounded': ['whole-coding composition (payload equality, exact consumption, ended-iff): native small-scope grammar run'],
     },
     'C08': {
-        'modules': M_BODYR,
-        'explanation': 'read_limit: exactly min(input, space, remaining) bytes copied unchanged, countdown exact, rest of the output untouched; read_unlimit: min(input, space) passthrough; is_ended <=> remaining == 0 / never for close-delimited; Flow<RecvBody>::can_proceed true for close-delimited at any time; Flow<RecvResponse>::proceed appends CloseDelimitedBody exactly for a close-delimited body.',
+        'modules': M_BODYR + ['lemmas'],
+        'explanation': 'read_limit: exactly min(input, space, remaining) bytes copied unchanged, countdown exact, rest of the output untouched; read_unlimit: min(input, space) passthrough; is_ended <=> remaining == 0 / never for close-delimited; Flow<RecvBody>::can_proceed true for close-delimited at any time; Flow<RecvResponse>::proceed appends CloseDelimitedBody exactly for a close-delimited body; lemmas::lemma_len_history: over ANY arrival / buffer schedule the reads deliver exactly stream[0..pos], never beyond N (induction over the list of reads).',
         'assumptions': [VERUS, USIZE],
     },
     'C09': {
@@ -73,7 +73,7 @@ PROPS = {
         'assumptions': [VERUS, HTTP, PRE, ITER],
     },
     'C10': {
-        'modules': ['ext', 'util', 'client::flow'],
+        'modules': ['ext', 'util', 'client::flow', 'lemmas'],
         'explanation': 'append-or-frame postcondition on every function of flow.rs: Flow::new records Http10 / ClientConnectionClose exactly, try_read_100 appends Not100Continue exactly on a non-100 decision, try_response appends ServerConnectionClose iff the returned response has connection: close, RecvResponse::proceed appends CloseDelimitedBody iff a close-delimited body follows, everything else leaves the list unchanged; must_close_connection == list non-empty and close_reason explains list[0], identically in Redirect and Cleanup; capacity 5 proved sufficient from the per-state bounds; lemma_close_trace composes them.',
         'assumptions': [VERUS, HTTP, 'HeaderIterExt::has = exists field with that name (case-insensitive) and exactly that value (N9 stub headers_has)', LIT, PRE],
         'bounded': ['headers_has against http::HeaderMap: native run'],
